@@ -25,7 +25,8 @@ META = dict(
           "the invariants I1-I5 are evaluated in every state; non-trivial = every state but the initial one"),
     bound=dict(quick="closure of each of the 7 single-group sub-alphabets (13-14 events each, two private tables) "
                      "plus all histories of <= 2 events over the whole alphabet",
-               thorough="closure of every pair of groups (21 pairs) and all histories of <= 3 events over the whole alphabet"),
+               thorough="closure of each single-group sub-alphabet with the full public digest in both read orders, closure of "
+                        "four pairs of groups that share machinery, and all histories of <= 3 events over the whole alphabet"),
     assumptions=["independence assumption for the closures: three or more groups interfere only if some pair does (probed by "
                  "the bounded-depth run over the whole alphabet)",
                  "formula('aa:..', table=T) and xray_sld (no table keyword) are documented not to support private tables: excluded",
@@ -36,6 +37,7 @@ META = dict(
 )
 
 GROUPS = ["radius", "crystal", "neutron", "activation", "xray", "lines", "mff"]
+PAIRS = [("neutron", "activation"), ("xray", "lines"), ("radius", "crystal"), ("neutron", "xray")]
 TABLES = ["T1", "T2"]
 
 INIT_CODE = {
@@ -530,9 +532,13 @@ def run(ctx):
             plans.append(("closure-" + g, [g], None, 3, True))
         plans.append(("depth2-all", GROUPS, 2, 6, True))
     else:
-        for i, g in enumerate(GROUPS):
-            for h in GROUPS[i + 1:]:
-                plans.append(("closure-%s+%s" % (g, h), [g, h], None, 4, False))
+        # single-group closures with the full public digest in both read orders, the pairs of groups that share
+        # machinery (same module, same registration kind, same loader mechanism), and depth 3 over everything.
+        # (All 21 pair closures are up to 49^2 states each: measured > 1 h on 16 cores, so the pairs are selected.)
+        for g in GROUPS:
+            plans.append(("closure-" + g, [g], None, 4, False))
+        for g, h in PAIRS:
+            plans.append(("closure-%s+%s" % (g, h), [g, h], None, 4, False))
         plans.append(("depth3-all", GROUPS, 3, 8, False))
     # every plan is an explorer with its own workers: bound the product (outer x inner) by the machine
     outer = max(1, min(len(plans), ctx.jobs // (3 if ctx.quick else 4)))
